@@ -221,6 +221,9 @@ def run(repo, tier):
         (ASD + 'cutout_centroid', 'stmt', 'ycentroid = moments[:, 1, 0] / moments[:, 0, 0]', 'y centroid = m10 / m00 (any sign of m00)'),
         (ASD + 'cutout_centroid', 'stmt', 'xcentroid = moments[:, 0, 1] / moments[:, 0, 0]', 'x centroid = m01 / m00 (any sign of m00)'),
     ])
+    # the property goes through BoundingBox.from_float / get_overlap_slices: C01's rules for them are its rules too
+    from .C01 import bbox_rules as _c01_bbox_rules
+    _c01_bbox_rules(repo, res)
     from .common import run_generic_pack
     run_generic_pack(repo, res, PROP, MODS)
     return res
